@@ -21,14 +21,18 @@ import (
 // VerifCatfile is a real catfileReader reading from an arbitrary stream instead of a git process.
 type VerifCatfile struct{ cr *catfileReader }
 
-// VerifNewCatfile wraps r in a catfileReader (bufio size bufSize; bufio's minimum is 16). The reader is
-// backed by an already-finished dummy process so that Close (called by indexCatfileBlobs) works.
-func VerifNewCatfile(r io.Reader, bufSize int) *VerifCatfile {
-	cmd := exec.Command("true")
-	_ = cmd.Start()
+// VerifNewCatfile wraps r in a catfileReader (bufio size bufSize; bufio's minimum is 16). With closable set the
+// reader is backed by a dummy process so that Close (called by indexCatfileBlobs) works; without it Close must
+// not be called.
+func VerifNewCatfile(r io.Reader, bufSize int, closable bool) *VerifCatfile {
 	we := make(chan error)
 	close(we)
-	return &VerifCatfile{cr: &catfileReader{cmd: cmd, reader: bufio.NewReaderSize(r, bufSize), writeErr: we}}
+	cr := &catfileReader{reader: bufio.NewReaderSize(r, bufSize), writeErr: we}
+	if closable {
+		cr.cmd = exec.Command("true")
+		_ = cr.cmd.Start()
+	}
+	return &VerifCatfile{cr: cr}
 }
 
 func (v *VerifCatfile) Next() (size int, missing, excluded bool, err error) { return v.cr.Next() }
